@@ -1063,3 +1063,63 @@ func (c *Ctx) rulesR5hist2() {
 		c.undecided(fmt.Sprintf("C17.sync: only %d forked writes found in the writeDb functions (expected 3)", k))
 	}
 }
+
+// rulesR5getmach: C17.getmach
+func (c *Ctx) rulesR5getmach() {
+	c.rule("C17.getmach", "GetMachine of the key-value history backends decodes the stored machine record into a freshly allocated record: the pointer handed to Decode was assigned a new(MachineRecord) in that function before the call. A nil pointer makes Decode fail, the stored machine is never found and a re-tracked machine restarts its record ids at 1, over the existing log")
+	n := 0
+	for _, f := range c.Funcs {
+		if topFunc(f).Name() != "GetMachine" || topFunc(f).Pkg == nil {
+			continue
+		}
+		rel := relPkg(topFunc(f).Pkg.Pkg.Path())
+		if !strings.HasPrefix(rel, ph+"/") {
+			continue
+		}
+		for _, b := range f.Blocks {
+			for _, ins := range b.Instrs {
+				call, ok := ins.(*ssa.Call)
+				if !ok || calleeName(&call.Call) != "Decode" || len(call.Call.Args) < 2 {
+					continue
+				}
+				n++
+				tgt := call.Call.Args[1]
+				for {
+					if mi, ok := tgt.(*ssa.MakeInterface); ok {
+						tgt = mi.X
+						continue
+					}
+					if ci, ok := tgt.(*ssa.ChangeInterface); ok {
+						tgt = ci.X
+						continue
+					}
+					break
+				}
+				good := false
+				// direct allocation
+				if flowsFrom(tgt, func(x ssa.Value) bool { _, isAl := x.(*ssa.Alloc); return isAl && x.Type() == tgt.Type() }) {
+					good = true
+				}
+				// load of a (captured) variable that was assigned an allocation before the call
+				if u, ok := tgt.(*ssa.UnOp); ok && u.Op == token.MUL {
+					for _, b2 := range f.Blocks {
+						for _, i2 := range b2.Instrs {
+							st, ok := i2.(*ssa.Store)
+							if !ok || st.Addr != u.X {
+								continue
+							}
+							if _, isAl := st.Val.(*ssa.Alloc); isAl && dominatesInstr(st, call) {
+								good = true
+							}
+						}
+					}
+				}
+				c.check(good, "C17.getmach", funcKey(topFunc(f))+": Decode target is allocated first", call.Pos(),
+					"the record pointer passed to Decode is never assigned an allocation in this function: it is nil and the decode fails")
+			}
+		}
+	}
+	if n < 2 {
+		c.undecided(fmt.Sprintf("C17.getmach: only %d Decode calls found in the GetMachine functions (expected >= 2)", n))
+	}
+}
